@@ -5,12 +5,14 @@ circus.stream.file_stream.FileStream on real files in a scratch directory, judge
 by the reference model vt/refmodels/logtail.py (a log is one string).
 """
 import datetime
+import itertools
 import os
 import shutil
 import tempfile
 
 from circus.stream.file_stream import FileStream
 
+from vt.explorer import digest
 from vt.main import EnumResult
 from vt.refmodels import logtail as LT
 
@@ -229,7 +231,105 @@ def shards(tier):
             elif c:
                 out.append((c, {'cfg': cfg, 'prefix': p}))
     out.sort(key=lambda t: -t[0])            # largest first: short tail on 16 cores
-    return [s for _c, s in out]
+    return [s for _c, s in out] + [{'fault': (m, n)} for m in (8, 12) for n in (1, 2)]
+
+
+# ------------------------------------------------------------------- family X: one I/O fault inside a rollover
+# Outside the letter of the quantifier (which ranges over inputs), inside its spirit: a rotation that fails once - a backup
+# slot that cannot be renamed or removed, the reopen that hits EMFILE - loses at most the write during which it failed.
+# Every write before and after it is accepted, and the files are still a bounded, contiguous, unduplicated tail of the
+# ACCEPTED writes.
+FAULT_OPS = ['rename', 'remove', 'open']
+W_FAULT = 'file_stream.FileStream._do_rollover/after-a-failed-rollover'
+
+
+def _fault_cases(m, n, tier):
+    L = 6 if tier == 'quick' else 7
+    for sizes in itertools.product((3, 5), repeat=L):
+        for op in FAULT_OPS:
+            for k in (1, 2, 3, 4):
+                yield {'fam': 'X', 'max_bytes': m, 'backup_count': n, 'sizes': list(sizes), 'fault_op': op, 'fault_k': k}
+
+
+def run_fault_case(r, case):
+    import circus.stream.file_stream as FS
+    from vt.fakezmq import ModuleProxy
+    d = _scratch()
+    path = os.path.join(d, BASE)
+    count = {'n': 0, 'fired': None}
+    cur = {'i': None}
+
+    def faulty(name, real):
+        def f(*a, **k):
+            if case['fault_op'] == name and count['fired'] is None:
+                count['n'] += 1
+                if count['n'] == case['fault_k']:
+                    count['fired'] = cur['i']
+                    raise OSError(24, 'injected %s failure' % name)
+            return real(*a, **k)
+        return f
+    real_os = FS.os
+    FS.os = ModuleProxy(real_os, rename=faulty('rename', real_os.rename), remove=faulty('remove', real_os.remove))
+    stream = None
+    try:
+        stream = FileStream(path, max_bytes=case['max_bytes'], backup_count=case['backup_count'])
+        real_open = stream._open
+        opens = {'armed': False}
+
+        def _open():
+            if opens['armed']:
+                return faulty('open', real_open)()
+            return real_open()
+        stream._open = _open
+        opens['armed'] = True
+        accepted, refused = [], []
+        off = 0
+        for i, size in enumerate(case['sizes']):
+            cur['i'] = i
+            payload = ''.join(ALPHA[(off + j) % len(ALPHA)] for j in range(size))
+            off += size
+            try:
+                stream({'data': payload, 'pid': 1})
+                accepted.append(payload)
+            except Exception as e:       # noqa
+                refused.append((i, '%s: %s' % (type(e).__name__, e)))
+        desc = lambda: 'max_bytes=%d backup_count=%d writes %s, the %d. %s of the rollovers fails (during write %s)' % (  # noqa
+            case['max_bytes'], case['backup_count'], case['sizes'], case['fault_k'], case['fault_op'], count['fired'])
+        late = [x for x in refused if x[0] != count['fired']]
+        r.check('C20.recovers_after_failed_rollover', not late,
+                lambda: desc() + ': writes %s were refused although the fault was over: %s' % ([x[0] for x in late], late[0][1]),
+                W_FAULT, case, fp='late-refusal-' + case['fault_op'], nontrivial=count['fired'] is not None)
+        try:
+            stream.close()
+        except Exception:        # noqa  (closing a stream whose last rollover failed: nothing is stated about it)
+            pass
+        names = sorted(os.listdir(d))
+        backs = sorted((int(nm[len(BASE) + 1:]) for nm in names if nm.startswith(BASE + '.') and nm[len(BASE) + 1:].isdigit()),
+                       reverse=True)
+        text = ''
+        for b in backs:
+            text += open('%s.%d' % (path, b)).read()
+        active = open(path).read() if os.path.exists(path) else ''
+        text += active
+        whole = ''.join(accepted)
+        r.check('C20.contiguous_tail', whole.endswith(text) and (not accepted or text.endswith(accepted[-1])),
+                lambda: desc() + ': files hold %r, accepted writes were %r' % (text, whole), W_FAULT, case,
+                fp='tail-after-fault-' + case['fault_op'], nontrivial=count['fired'] is not None)
+        r.check('C20.below_max', len(active) < case['max_bytes'],
+                lambda: desc() + ': active file has %d bytes' % len(active), W_FAULT, case, fp='max-after-fault')
+        r.check('C20.backup_bound', len(backs) <= case['backup_count'],
+                lambda: desc() + ': backups %s' % backs, W_FAULT, case, fp='backups-after-fault')
+        r.outcomes.add(digest([count['fired'] is not None, len(refused), len(backs)]))
+        if count['fired'] is not None:
+            r.nontrivial_count += 1
+    finally:
+        FS.os = real_os
+        if stream is not None:
+            try:
+                stream.close()
+            except Exception:      # noqa
+                pass
+        shutil.rmtree(d, ignore_errors=True)
 
 
 # ------------------------------------------------------------------------------------- the engine
@@ -492,6 +592,13 @@ def _scratch():
 
 def run_shard(shard, tier):
     r = EnumResult()
+    if 'fault' in shard:
+        for case in _fault_cases(shard['fault'][0], shard['fault'][1], tier):
+            r.cases += 1
+            run_fault_case(r, case)
+            if len(r.samples) < 1:
+                r.samples.append(case)
+        return r
     cfg = shard['cfg']
     d = _scratch()
     eng = Engine(d, cfg)
@@ -514,6 +621,10 @@ def run_shard(shard, tier):
 
 def replay_case(case):
     """Run one recorded case from scratch, judging every step; -> [(clause, detail, where)]."""
+    if case.get('fam') == 'X':
+        r = EnumResult()
+        run_fault_case(r, case)
+        return [(v['clause'], v['detail'], v['where']) for v in r.violations]
     cfg = {k: case[k] for k in ('fam', 'rot', 'max_bytes', 'backup_count', 'tf', 'nl', 'pre', 'dtype', 'seed')}
     cfg.update({'sizes': [], 'specials': [], 'nspecial': None, 'L': len(case['events'])})
     cfg['pre'] = 0                      # the recorded event list already contains the earlier instance's writes
